@@ -30,6 +30,9 @@ Record pix : Type := mkPix {
   p_fL : Z; p_fR : Z                              (* validity masks *)
 }.
 
+(* the input part of a state: what no step rewrites *)
+Definition img_of (p : pix) : Z * Z * Z * Z := (p_L p, p_R p, p_mL p, p_mR p).
+
 Definition set_mc (p : pix) (cl cr : list (option Q)) (fl fr : Z) : pix :=
   mkPix (p_L p) (p_R p) (p_mL p) (p_mR p) cl cr (p_dL p) (p_dR p) fl fr.
 Definition set_disp (p : pix) (dl dr : option Q) (fl fr : Z) : pix :=
